@@ -29,6 +29,7 @@ EXTENDS LossesCore
 CONSTANTS Kinds,        \* subset of {"tc", "ptc", "ssc"}
           NExp,         \* number of experiments (2 or 3)
           SettingsRule, \* "own" (the contract) | "leaky" (an override stays in force for later experiments)
+                        \* | "writeback" (a call writes the shared defaults INTO the caller's settings objects)
           Rich,         \* TRUE: two candidates
           EmitOn
 VARIABLES kind, exps, dflt, jc, ph
@@ -50,6 +51,9 @@ AIn   == RInt(2)
 Prot  == <<[dur |-> 1, A |-> RInt(2)], [dur |-> 2, A |-> RInt(0)]>>
 Times == <<1, 2, 3>>
 JTrue == 1                                   \* every experiment's data are generated with the same true constant
+J4True == 1                                  \* the extra drain of a rich model: true constant, candidate (in p0)
+J4Cand == 0
+JEff(e, j, j4) == IF e.rich THEN j + j4 ELSE j
 X2    == RInt(1)                             \* second variable of the loop (never overridden)
 
 \* an experiment: what its model holds, its overrides
@@ -71,13 +75,21 @@ Leak(d, os, i) == IF i > Len(os) THEN <<>>
                   ELSE LET cur == [y0 |-> Pick(os[i].y0, d.y0, IsNone), loss |-> Pick(os[i].loss, d.loss, LAMBDA l : l = "none")]
                        IN  <<cur>> \o Leak(cur, os, i + 1)
 EffLeaky(d, os) == Leak(d, os, 1)
-Eff(d, os) == IF SettingsRule = "own" THEN EffOwn(d, os) ELSE EffLeaky(d, os)
+Eff(d, os) == IF SettingsRule = "leaky" THEN EffLeaky(d, os) ELSE EffOwn(d, os)
+\* what the caller's settings objects hold AFTER a call with defaults d (the contract: what the caller wrote)
+After(d, os) == IF SettingsRule = "writeback"
+                THEN [i \in 1..Len(os) |-> [os[i] EXCEPT !.y0 = Pick(os[i].y0, d.y0, IsNone),
+                                                          !.loss = Pick(os[i].loss, d.loss, LAMBDA l : l = "none")]]
+                ELSE os
 
 \* ---- state machine: one experiment per step -----------------------------------------------------------
 Init == kind \in Kinds /\ exps = <<>> /\ dflt = [y0 |-> NoneR, loss |-> "rmse"] /\ jc = 0 /\ ph = "exps"
+\* rich: the experiment's model is the pool / loop WITH AN EXTRA DRAIN (parameter k4, a name only this model has); p0
+\* names k4 as well: every fitted name is written into every model that has it, whatever the order of the experiments
 AddExp == /\ ph = "exps" /\ Len(exps) < NExp
-          /\ \E m \in ModelInits, y \in Y0Over, l \in LossOver :
-                exps' = Append(exps, [minit |-> m, y0 |-> y, loss |-> l])
+          /\ \E m \in ModelInits, y \in Y0Over, l \in LossOver, rich \in BOOLEAN :
+                /\ (rich => (IsNone(y) /\ l = "none"))
+                /\ exps' = Append(exps, [minit |-> m, y0 |-> y, loss |-> l, rich |-> rich])
           /\ UNCHANGED <<kind, dflt, jc, ph>>
 Finish == /\ ph = "exps" /\ Len(exps) = NExp
           /\ \E y \in Y0Dflt, l \in LossDflt, c \in Cands : dflt' = [y0 |-> y, loss |-> l] /\ jc' = c
@@ -95,9 +107,9 @@ Table(j, x0) ==
 \* the data of an experiment: generated by the model at the true constant from the start its OWN settings choose
 \* (so the contract's residual is 0 at the truth), displaced by 1/2 in the first entry
 OwnSet == EffOwn(dflt, exps)
-DataOf(i) == LET t == Table(JTrue, Start(exps[i], OwnSet[i].y0))
+DataOf(i) == LET t == Table(JEff(exps[i], JTrue, J4True), Start(exps[i], OwnSet[i].y0))
              IN  << [r \in 1..Len(t[1]) |-> IF r = 1 THEN RAdd(t[1][r], R(1, 2)) ELSE t[1][r]] >>
-PredOf(i, set) == Table(jc, Start(exps[i], set[i].y0))
+PredOf(i, set) == Table(JEff(exps[i], jc, J4Cand), Start(exps[i], set[i].y0))
 
 Term(i, set, scaled) == ResidualT(set[i].loss, DataOf(i), PredOf(i, set), scaled, "dp")
 Expected(set) == [i \in 1..Len(exps) |-> [plain |-> Term(i, set, FALSE),
@@ -117,11 +129,18 @@ LeakShape == \E i, k \in 1..Len(exps) :
                            \/ (/\ exps[i].loss # "none" /\ exps[i].loss # dflt.loss
                                /\ \A m \in (i + 1)..k : exps[m].loss = "none"))
 LeakMatters == (Done /\ LeakShape) => EffOwn(dflt, exps) # EffLeaky(dflt, exps)
+\* HISTORIES on one settings list, Call(d1) then Call(dflt): each call's effective settings depend only on THAT call's
+\* defaults and the overrides as the caller wrote them, and the caller's settings objects are unchanged by a call
+AllDefaults == {[y0 |-> y, loss |-> l] : y \in Y0Dflt \cup {RInt(5)}, l \in LossDflt}
+HistoryFree == Done => \A d1 \in AllDefaults :
+                  /\ Eff(dflt, After(d1, exps)) = EffOwn(dflt, exps)
+                  /\ After(d1, exps) = exps
 
 Emit == (EmitOn /\ Done) =>
     PrintT("@J@" \o ToJson([kind |-> kind, exps |-> exps, dflt |-> dflt, jc |-> jc, jt |-> JTrue, A |-> AIn, prot |-> Prot,
                              times |-> Times, x2 |-> X2,
-                             eff |-> Eff(dflt, exps), leakshape |-> LeakShape,
+                             eff |-> Eff(dflt, exps), leakshape |-> LeakShape, j4t |-> J4True, j4c |-> J4Cand,
+                             anyrich |-> \E i \in 1..Len(exps) : exps[i].rich,
                              data |-> [i \in 1..Len(exps) |-> DataOf(i)],
                              pred |-> [i \in 1..Len(exps) |-> PredOf(i, Eff(dflt, exps))],
                              exp |-> Expected(Eff(dflt, exps))]) \o "@E@")
